@@ -97,6 +97,11 @@ def impl_plurals(payload):
         entries.append(polib.POEntry(msgid='u', msgid_plural='b', msgstr_plural={0: '', 1: ''}))
     if not has_plurals:
         entries.append(polib.POEntry(msgid='s', msgstr='t'))
+    else:
+        # plural messages that are NOT translated (fuzzy, obsolete) have other numbers of filled forms: they must not take part in the
+        # nplurals bookkeeping ("the number of msgstr[] forms of the translated plural messages")
+        entries.insert(len(entries) // 2, polib.POEntry(msgid='fz', msgid_plural='b', msgstr_plural={i: 'x' for i in range(5)}, flags=['fuzzy']))
+        entries.append(polib.POEntry(msgid='ob', msgid_plural='b', msgstr_plural={i: 'x' for i in range(6)}, obsolete=True))
     import types
     lang = None if correct is None else types.SimpleNamespace(get_plural_forms=lambda: list(correct))
     ctx = IC.new_ctx(file=entries, is_template=False, language=lang)
@@ -287,6 +292,11 @@ def cases(ctx):
             for tmpl in ('n%{p}', 'n%{p}==0 ? 0 : 2', 'n%{p}==1 ? 0 : n%{p}==2 ? 2 : 1', '(n%{p})%{n}', 'n%{p}>=1 ? 1 : 3',
                          'n>{p} ? 1 : 0', 'n=={p} ? 1 : 0', 'n<{p} ? 0 : 2', 'n%{p}*2', '2+n%{p}', 'n%{p}/{n}'):
                 out.append((('nplurals=%d; plural=%s;' % (n, tmpl.format(p=p, n=n)), True, [], None), 'period-window'))
+    # a modulus applied to a COMPOUND operand that first changes beyond the window (no period may be claimed for it from the modulus alone)
+    for n, e in [(3, '(n/100)%3'), (2, '(n>300)%2'), (2, '(n/250)%2'), (3, '(n/100+n/300)%3'), (2, '(n>=200)%2'), (4, '(n*n/40000)%4'), (2, '(n==1000)%2'),
+                 (3, '(n/100)%3==2 ? 2 : n!=1'), (2, '!(n<400)%2')]:
+        out.append((('nplurals=%d; plural=%s;' % (n, e), True, [], None), 'mod-of-compound-operand'))
+        out.append((('nplurals=%d; plural=%s;' % (n, e), False, [], None), 'mod-of-compound-operand'))
     # offset O < 200 and period P < 200 but O + P >= 200, and a value that first appears beyond the window
     for O in (101, 150, 190, 195, 198):
         for P in (2, 10, 50, 100, 150, 199):
